@@ -197,7 +197,7 @@ theorem rekey_plain (sch : Schema) (hb : sch.ctxBasic = []) (hm : sch.ctxMain = 
     (data : List (Str × Str)) (hnd : (data.map Prod.fst).Nodup) : rekey sch data = .ok data := by
   unfold rekey
   rw [foldE_congr (g := fun acc (kv : Str × Str) => (Except.ok (aset kv.1 kv.2 acc) : Except Err _))
-    (by intro acc kv; simp [ctxRemap_plain sch hb hm])]
+    (by intro acc kv; simp [rekeyStep, ctxRemap_plain sch hb hm])]
   rw [rekey_plain_aux data [] (by simpa using hnd)]
   rfl
 
